@@ -16,7 +16,7 @@ def bb_hints(flush, shared, delc):
     return h
 
 
-WRITES = ['put_coll', 'put_vars_rec', 'put_indep', 'iput_wait', 'bput_wait', 'varn', 'convert', 'var1_short']
+WRITES = ['put_coll', 'put_vars_rec', 'put_indep', 'iput_wait', 'bput_wait', 'varn', 'convert', 'var1_short', 'iput_varn', 'asym', 'iput_read_put_cancel']
 SYNCS = ['none', 'sync', 'flush', 'wait_all', 'redef', 'reopen']
 
 
@@ -35,6 +35,24 @@ def do_write(s, kind, r, tag):
     elif kind == 'put_vars_rec': s.put(r, 1, [1, 2 * r], [2, 1], [2, 1], form='vars', coll=1, tag=tag)       # records 1 and 3
     elif kind == 'varn': s.put(r, 1, form='varn', boxes=[([2, 2 * r], [1, 2]), ([4, 2 * r + 1], [1, 1])], coll=1, tag=tag)
     elif kind == 'var1_short': s.put(r, 2, [5 + r], None, None, form='var1', coll=1, tag=tag)
+    elif kind == 'iput_varn':
+        ln, idx, vals = s.put(r, 1, form='varn', boxes=[([6, 2 * r], [2, 1]), ([7, 2 * r + 1], [1, 1])], nb='i', req=16 + r, tag=tag, update=False)
+        s.op(r, 'wait', f=0, ids=['q%d' % (16 + r)], all=1); s.model.put_idx(1, idx, vals)
+    elif kind == 'iput_read_put_cancel':
+        # a pending write, flushed as a side effect of a read, then a newer write, then cancel of the old request: the old
+        # request is either flushed (burst buffer: NC_EFLUSHED) or cancelled (default driver) - its elements are undefined
+        # for the comparison - but the newer write must survive in both
+        var = s.model.vars[2]
+        ln, idx, vals = s.put(r, 2, [12 + np + 2 * r], [1], None, form='vara', nb='i', req=24 + r, tag=tag, update=False)
+        s.op(r, 'get', expect_rc=None, f=0, form='vara', v=0, s=[W * r], c=[1], coll=0 if s.indep else 1, mem='int')
+        s.put(r, 2, [13 + np + 2 * r], [1], None, form='vara', coll=0 if s.indep else 1, tag=tag + 1)
+        s.op(r, 'cancel', expect_rc=None, f=0, ids=['q%d' % (24 + r)], all=0)
+        for i in idx: var.vals.pop(i, None)
+        s.model.numrecs = max(s.model.numrecs, 13 + np + 2 * r + 1)
+    elif kind == 'asym':
+        # only the last process appends (the others take part with nothing): the record count must still agree everywhere
+        if r == np - 1: s.put(r, 2, [9 + np], [1], None, form='vara', coll=1, tag=tag)
+        else: s.op(r, 'put', f=0, form='vara', v=2, s=[0], c=[0], coll=1, mem='short')
 
 
 INDEP_KINDS = ('put_indep',)
@@ -55,6 +73,7 @@ def gen(nps, configs, pairs, syncs, driver='bb'):
         s.op('*', 'def_var', name='f', xtype='int', dims=[1]); s.op('*', 'def_var', name='r', xtype='int', dims=[0, 2]); s.op('*', 'def_var', name='s', xtype='short', dims=[0])
         s.op('*', 'enddef')
         s.op('*', 'buffer_attach', size=4096)
+        s.indep = False
         tag = 1
         for wi, w in enumerate((w1, w2)):
             if w is None: continue
@@ -131,8 +150,9 @@ def main(tier=None):
         pairs = [(a, c) for a in WRITES for c in WRITES if a != c] + [(a, None) for a in WRITES]
         nps = (1, 2, 3); syncs = SYNCS
     else:
-        configs = [(ENTRY, 0, 1), (ENTRY + 1, 1, 0), (0, 0, 1), (3 * ENTRY, 1, 1)]
-        pairs = [('put_coll', 'put_vars_rec'), ('iput_wait', 'varn'), ('put_indep', 'convert'), ('bput_wait', 'var1_short'), ('varn', 'put_coll'), ('put_vars_rec', 'iput_wait'), ('convert', 'bput_wait'), ('var1_short', 'put_indep')]
+        configs = [(ENTRY, 0, 1), (ENTRY + 1, 1, 0), (0, 0, 1), (3 * ENTRY, 1, 1), (ENTRY + 4, 0, 0)]
+        pairs = [('put_coll', 'put_vars_rec'), ('iput_wait', 'varn'), ('put_indep', 'convert'), ('bput_wait', 'var1_short'), ('varn', 'put_coll'), ('put_vars_rec', 'iput_wait'), ('convert', 'bput_wait'), ('var1_short', 'put_indep'),
+                 ('iput_varn', 'asym'), ('asym', 'put_coll'), ('iput_read_put_cancel', 'put_coll'), ('varn', 'iput_read_put_cancel'), ('put_indep', 'iput_varn'), ('varn', 'asym')]
         nps = (1, 2); syncs = ['none', 'sync', 'flush', 'wait_all', 'redef', 'reopen']
     bb = gen(nps, configs, pairs, syncs, 'bb')
     ref = gen(nps, [(0, 0, 1)], pairs, syncs, 'ref')
@@ -155,8 +175,8 @@ def main(tier=None):
                     ck.violation(('differs_from_default_driver', 'file', 'logical content'), s.case.text(), s.case.name + ': decoded destination file differs from the same program under the default driver')
             except Exception: pass
     ck.cov['distinct_nontrivial'] = len(ck.outcomes)
-    ck.cov['rule'] = ('programs = ordered pairs of write kinds {blocking collective, strided record put, independent put, iput+wait, bput+wait, put_varn, converting put, put_var1 short record} with a flush point {none, sync, flush, '
-                      'wait_all, redef, close+reopen} between them x flush-buffer size {one entry, one entry + 1 byte, three entries, unlimited} x shared/per-process logs x del_on_close x np; each program also runs under the default '
+    ck.cov['rule'] = ('programs = ordered pairs of write kinds {blocking collective, strided record put, independent put, iput+wait, bput+wait, put_varn, iput_varn+wait, converting put, put_var1 short record, a record appended by the last process only} with a flush point {none, sync, flush, '
+                      'wait_all, redef, close+reopen} between them x flush-buffer size {one entry, one entry + 1 byte, one and a half entries, three entries, unlimited} x shared/per-process logs x del_on_close x np; each program also runs under the default '
                       'driver; own writes are read back before any flush, all writes and the record count on every rank after every flush point, the decoded destination file is compared with the model and with the default-driver '
                       'file, and the log directory is listed after close')
     ck.sample(bb[0].case.text()[:2000])
